@@ -37,19 +37,19 @@ Free(k) == pool[k] = Null
 SumOver(S, Op(_)) == FoldSet(LAMBDA x, acc : acc + Op(x), 0, S)
 
 (* An axis is [tmin, count]; count = 0 means "no bin yet". *)
-NoAxis == [tmin |-> 0, count |-> 0]
+NoAxis(gr) == [tmin |-> 0, count |-> 0, grid |-> gr]     \* grid: which (width, shift) grid the axis lives on
 GrowAxis(ax, k) ==
-    IF ax.count = 0 THEN [tmin |-> k, count |-> 1]
+    IF ax.count = 0 THEN [tmin |-> k, count |-> 1, grid |-> ax.grid]
     ELSE LET lo == IF k < ax.tmin THEN k ELSE ax.tmin
              hi == IF k > ax.tmin + ax.count - 1 THEN k ELSE ax.tmin + ax.count - 1
-         IN  [tmin |-> lo, count |-> hi - lo + 1]
+         IN  [tmin |-> lo, count |-> hi - lo + 1, grid |-> ax.grid]
 
 (* Union of two axes on the common grid (adaptive addition). *)
 UnionAxis(a, b) ==
     IF b.count = 0 THEN a ELSE IF a.count = 0 THEN b
     ELSE GrowAxis(GrowAxis(a, b.tmin), b.tmin + b.count - 1)
 
-Empty(dim) == [axes |-> [a \in 1..dim |-> NoAxis], cont |-> {}, w8d |-> FALSE]
+Empty(dim) == [axes |-> [a \in 1..dim |-> NoAxis(a)], cont |-> {}, w8d |-> FALSE]
 
 (* cont: set of <<cell, freq, err2>> with freq > 0 *)
 ContAdd(cont, cell, w) ==
@@ -74,6 +74,12 @@ GUnion(a, b) ==
         cnt(S, k) == IF \E t \in S : t[1] = k[1] /\ t[2] = k[2] THEN (CHOOSE t \in S : t[1] = k[1] /\ t[2] = k[2])[3] ELSE 0
     IN  {<<k[1], k[2], cnt(a, k) + cnt(b, k)>> : k \in keys}
 
+Untracked == {<<"untracked">>}       \* the data behind a derived histogram is not tracked
+Tracked(i) == ghost[i] # {} /\ ghost[i] # Untracked
+GAdd2(bag, cell, w) == IF bag = Untracked THEN Untracked ELSE GAdd(bag, cell, w)
+GAddAll2(bag, batch) == IF bag = Untracked THEN Untracked ELSE GAddAll(bag, batch)
+GUnion2(a, b) == IF a = Untracked \/ b = Untracked THEN Untracked ELSE GUnion(a, b)
+
 BatchDim(batch, dim) == \A i \in 1..Len(batch) : Len(batch[i][1]) = dim
 
 ---------------------------------------------------------------------------
@@ -96,13 +102,13 @@ NewFilled(k, dim, batch) ==
 Fill(i, cell, cls, w) ==
     /\ Live /\ On("Fill") /\ Has(i) /\ Len(cell) = Len(pool[i].axes)
     /\ pool' = [pool EXCEPT ![i] = Deposit(pool[i], cell, w)]
-    /\ ghost' = [ghost EXCEPT ![i] = GAdd(ghost[i], cell, w)]
+    /\ ghost' = [ghost EXCEPT ![i] = GAdd2(ghost[i], cell, w)]
 
 (* h.fill_n(values, weights) *)
 FillN(i, batch) ==
     /\ Live /\ On("FillN") /\ Has(i) /\ BatchDim(batch, Len(pool[i].axes))
     /\ pool' = [pool EXCEPT ![i] = DepositAll(pool[i], batch)]
-    /\ ghost' = [ghost EXCEPT ![i] = GAddAll(ghost[i], batch)]
+    /\ ghost' = [ghost EXCEPT ![i] = GAddAll2(ghost[i], batch)]
 
 (* k = i + j: bins are extended to the union of both ranges on the common grid, nothing is lost *)
 PlusA(a, b) ==
@@ -112,15 +118,17 @@ PlusA(a, b) ==
               IN  {<<c, f(a.cont, c)[2] + f(b.cont, c)[2], f(a.cont, c)[3] + f(b.cont, c)[3]>> : c \in cells},
      w8d |-> a.w8d \/ b.w8d]
 
+SameGrids(a, b) == Len(a.axes) = Len(b.axes) /\ \A x \in 1..Len(a.axes) : a.axes[x].grid = b.axes[x].grid
+
 Add(i, j, k) ==
-    /\ Live /\ On("Add") /\ Has(i) /\ Has(j) /\ Free(k) /\ Len(pool[i].axes) = Len(pool[j].axes)
+    /\ Live /\ On("Add") /\ Has(i) /\ Has(j) /\ Free(k) /\ SameGrids(pool[i], pool[j])
     /\ pool' = [pool EXCEPT ![k] = PlusA(pool[i], pool[j])]
-    /\ ghost' = [ghost EXCEPT ![k] = GUnion(ghost[i], ghost[j])]
+    /\ ghost' = [ghost EXCEPT ![k] = GUnion2(ghost[i], ghost[j])]
 
 IAdd(i, j) ==
-    /\ Live /\ On("IAdd") /\ Has(i) /\ Has(j) /\ i # j /\ Len(pool[i].axes) = Len(pool[j].axes)
+    /\ Live /\ On("IAdd") /\ Has(i) /\ Has(j) /\ i # j /\ SameGrids(pool[i], pool[j])
     /\ pool' = [pool EXCEPT ![i] = PlusA(pool[i], pool[j])]
-    /\ ghost' = [ghost EXCEPT ![i] = GUnion(ghost[i], ghost[j])]
+    /\ ghost' = [ghost EXCEPT ![i] = GUnion2(ghost[i], ghost[j])]
 
 (* k = i.copy() *)
 Copy(i, k) ==
@@ -137,7 +145,7 @@ Project(i, ax, k) ==
                    IN  {<<c, SumOver({t \in pool[i].cont : t[1][ax] = c[1]}, LAMBDA t : t[2]),
                             SumOver({t \in pool[i].cont : t[1][ax] = c[1]}, LAMBDA t : t[3])>> : c \in cs},
           w8d |-> pool[i].w8d]]
-    /\ ghost' = [ghost EXCEPT ![k] = {}]
+    /\ ghost' = [ghost EXCEPT ![k] = Untracked]
 
 Next ==
     \/ \E k \in Ids, d \in Dims : NewEmpty(k, d)
@@ -158,20 +166,20 @@ InAxis(ax, k) == ax.count > 0 /\ k >= ax.tmin /\ k <= ax.tmin + ax.count - 1
 
 (* C04: every value entered lies inside a bin and total = total weight entered (nothing missed). *)
 NothingMissed ==
-    \A i \in Ids : (Has(i) /\ ghost[i] # {}) =>
+    \A i \in Ids : (Has(i) /\ Tracked(i)) =>
         /\ Total(pool[i]) = GWeight(ghost[i])
         /\ \A t \in ghost[i] : \A a \in 1..Len(pool[i].axes) : InAxis(pool[i].axes[a], t[1][a])
 
 (* C04: bins span exactly from the lowest to the highest bin ever needed. *)
 TightSpan ==
-    \A i \in Ids : (Has(i) /\ ghost[i] # {}) =>
+    \A i \in Ids : (Has(i) /\ Tracked(i)) =>
         \A a \in 1..Len(pool[i].axes) :
             /\ pool[i].axes[a].tmin = Min({t[1][a] : t \in ghost[i]})
             /\ pool[i].axes[a].tmin + pool[i].axes[a].count - 1 = Max({t[1][a] : t \in ghost[i]})
 
 (* C04: the result equals a fixed-bin histogram of the same data: content per absolute cell. *)
 EqualsFixed ==
-    \A i \in Ids : (Has(i) /\ ghost[i] # {}) =>
+    \A i \in Ids : (Has(i) /\ Tracked(i)) =>
         \A t \in pool[i].cont :
             /\ t[2] = SumOver({g \in ghost[i] : g[1] = t[1]}, LAMBDA g : g[2] * g[3])
             /\ t[3] = SumOver({g \in ghost[i] : g[1] = t[1]}, LAMBDA g : g[2] * g[2] * g[3])
